@@ -1,8 +1,1208 @@
+//! C27 — "A running dataflow never misses an external wake-up".
+//!
+//! Code under test: `dfir_rs::scheduled::context::{WakeState, Context::waker, Dfir::{new, run_tick,
+//! run_available, run}}`. The real runner is built with `Dfir::new` around a harness tick closure that
+//! counts tick starts; it is polled by a hand-written executor whose only wake-up channel is the
+//! `Waker` it passes to `poll` (a flag). Nothing here depends on wall-clock time.
+//!
+//! (a) deterministic window sweep (single thread): a wake is fired *exactly* at a named program point
+//!     (verification hook H3), inside the tick closure, between polls, between API calls or while the
+//!     runner is idle; all single windows and all unordered pairs of windows are enumerated for every
+//!     runner variant. Idle wakes are additionally explored with an executor that reacts *inside* the
+//!     `Waker::wake` call (the interleaving "runner thread runs while the waking thread is still inside
+//!     `wake_by_ref`").
+//! (b) cross-thread stress: 1–2 real threads fire `Context::waker()` at random moments while the
+//!     runner thread runs `Dfir::run()`.
+//! (c) the same program under Miri (`--tier miri`, many seeds): tiny budgets.
+//!
+//! Oracle (all parts): let `c` be the number of ticks started when a wake is *invoked*
+//! (`tick_starts` read immediately before calling the waker). When the runner has come to rest
+//! (its future is `Pending` and the executor's woken flag is clear — and, cross-thread, every waker
+//! thread has finished), `tick_starts > c` must hold: at least one tick started after the wake.
+//! For `run_available()` used alone the documented contract is judged: a wake fired before the final
+//! flag check of the call must be followed by a tick before the call returns; a wake after that check
+//! (`run_available:after_swap`) may be left to the next call, which must tick. For a driver that loops
+//! `while df.run_tick().await {}` (how the simulator drives async DFIRs; `run_tick` documents that its
+//! result "checks ... external events") a wake fired before `run_tick` returned `false` must have been
+//! followed by a tick.
+
+use std::cell::RefCell;
+use std::collections::{BTreeMap, BTreeSet};
+use std::future::Future;
+use std::pin::Pin;
+use std::rc::Rc;
+use std::sync::Arc;
+use std::sync::atomic::Ordering::{Acquire, Relaxed, Release, SeqCst};
+use std::sync::atomic::{AtomicBool, AtomicU32, AtomicU64, AtomicUsize};
+use std::task::{Context as TaskCx, Poll, Wake, Waker};
+
+use dfir_rs::scheduled::context::{Context, Dfir, WakeState, verif};
+use dfir_rs::scheduled::metrics::DfirMetrics;
+use vcommon::{Args, Reporter, Rng, Tier, Value, catch, hash_of, json};
+
+// ---------------------------------------------------------------------------------------------
+// Program points, windows, variants
+
+const POINTS: [&str; 10] = [
+    "run_available:before_store",
+    "run_available:after_store",
+    "run_tick:before_swap",
+    "run_tick:after_swap",
+    "run_tick:after_tick",
+    "run_available:before_swap",
+    "run_available:after_swap",
+    "run:after_run_available",
+    "run:before_register",
+    "run:after_register",
+];
+const P_RA_AFTER_SWAP: u8 = 6;
+const PHASES: [&str; 3] = ["tick:start", "tick:resumed", "tick:end"];
+
+/// Labels used by the cross-thread part for "where was the runner when the wake was fired".
+const L_TICK: u32 = 10;
+const L_IDLE: u32 = 11;
+const L_BETWEEN: u32 = 12;
+const L_POLL_ENTRY: u32 = 13;
+const L_NAMES: [&str; 4] = ["tick:running", "exec:idle", "exec:between-polls", "exec:poll-entry"];
+
+fn point_index(name: &str) -> Option<u8> {
+    POINTS.iter().position(|p| *p == name).map(|i| i as u8)
+}
+
+/// A window in which a wake is fired.
+#[derive(Clone, Copy, PartialEq, Eq, Hash, Debug, PartialOrd, Ord)]
+enum Win {
+    /// k-th occurrence (0-based) of a named program point of the runner.
+    Point(u8, u8),
+    /// Inside the tick closure of tick #idx: phase 0 = at start (after the tick was counted),
+    /// 1 = after the tick resumed from a suspension, 2 = just before the tick returns.
+    Tick(u8, u8),
+    /// `run()` only: the k-th time the runner is at rest (Pending, executor not woken).
+    Idle(u8),
+    /// `run_available` / `run_tick`-loop drivers: after the k-th call returned, before the next.
+    Between(u8),
+    /// Between two polls while the executor is already woken (future suspended mid-way), k-th time.
+    MidYield(u8),
+}
+
+impl Win {
+    fn label(&self) -> &'static str {
+        match *self {
+            Win::Point(p, _) => POINTS[p as usize],
+            Win::Tick(ph, _) => PHASES[ph as usize],
+            Win::Idle(_) => "idle",
+            Win::Between(_) => "between-calls",
+            Win::MidYield(_) => "mid-yield",
+        }
+    }
+    fn occ(&self) -> u8 {
+        match *self {
+            Win::Point(_, k) | Win::Tick(_, k) | Win::Idle(k) | Win::Between(k) | Win::MidYield(k) => k,
+        }
+    }
+    fn to_json(&self) -> Value {
+        json!({"w": self.label(), "occ": self.occ()})
+    }
+    fn from_json(v: &Value) -> Option<Win> {
+        let w = v.get("w")?.as_str()?;
+        let k = v.get("occ")?.as_u64()? as u8;
+        if let Some(p) = point_index(w) {
+            return Some(Win::Point(p, k));
+        }
+        if let Some(ph) = PHASES.iter().position(|p| *p == w) {
+            return Some(Win::Tick(ph as u8, k));
+        }
+        match w {
+            "idle" => Some(Win::Idle(k)),
+            "between-calls" => Some(Win::Between(k)),
+            "mid-yield" => Some(Win::MidYield(k)),
+            _ => None,
+        }
+    }
+}
+
+#[derive(Clone, Copy, PartialEq, Eq, Hash, Debug)]
+enum Mode {
+    /// `df.run()` polled until at rest.
+    Run,
+    /// `df.run_available()` called repeatedly (each call driven to completion).
+    RaSeq,
+    /// `while df.run_tick().await {}` repeated.
+    TickLoop,
+}
+
+impl Mode {
+    fn name(&self) -> &'static str {
+        match self {
+            Mode::Run => "run",
+            Mode::RaSeq => "run_available",
+            Mode::TickLoop => "run_tick-loop",
+        }
+    }
+    fn site(&self) -> &'static str {
+        match self {
+            Mode::Run => "Dfir::run",
+            Mode::RaSeq => "Dfir::run_available",
+            Mode::TickLoop => "Dfir::run_tick loop",
+        }
+    }
+    fn from_name(s: &str) -> Option<Mode> {
+        [Mode::Run, Mode::RaSeq, Mode::TickLoop].into_iter().find(|m| m.name() == s)
+    }
+}
+
+#[derive(Clone, Copy, PartialEq, Eq, Hash, Debug)]
+struct Variant {
+    mode: Mode,
+    /// The tick closure suspends once (self-waking `Pending`) in the middle of every tick.
+    yielding: bool,
+    /// `run()` only: the executor polls the runner from inside `Waker::wake` (see module doc).
+    inline: bool,
+    /// The tick closure reports "had work" (`true`) for its first `work_ticks` ticks.
+    work_ticks: u8,
+}
+
+impl Variant {
+    fn to_json(&self) -> Value {
+        json!({"mode": self.mode.name(), "yielding": self.yielding, "inline_exec": self.inline,
+               "work_ticks": self.work_ticks})
+    }
+    fn name(&self) -> String {
+        format!(
+            "{}{}{}{}",
+            self.mode.name(),
+            if self.yielding { "+yielding-tick" } else { "" },
+            if self.inline { "+inline-exec" } else { "" },
+            if self.work_ticks > 0 { "+work" } else { "" }
+        )
+    }
+}
+
+fn all_variants() -> Vec<Variant> {
+    let mut v = vec![];
+    for yielding in [false, true] {
+        for work_ticks in [0u8, 1] {
+            for inline in [false, true] {
+                v.push(Variant { mode: Mode::Run, yielding, inline, work_ticks });
+            }
+            v.push(Variant { mode: Mode::RaSeq, yielding, inline: false, work_ticks });
+            v.push(Variant { mode: Mode::TickLoop, yielding, inline: false, work_ticks });
+        }
+    }
+    v
+}
+
+fn windows_of(v: &Variant, max_occ: u8) -> Vec<Win> {
+    let mut w = vec![];
+    let pts: Vec<u8> = match v.mode {
+        Mode::Run => (0..10).collect(),
+        Mode::RaSeq => (0..7).collect(),
+        Mode::TickLoop => vec![2, 3, 4],
+    };
+    for p in pts {
+        for k in 0..=max_occ {
+            w.push(Win::Point(p, k));
+        }
+    }
+    for ph in 0..3u8 {
+        if ph == 1 && !v.yielding {
+            continue;
+        }
+        for k in 0..=max_occ {
+            w.push(Win::Tick(ph, k));
+        }
+    }
+    for k in 0..=max_occ {
+        match v.mode {
+            Mode::Run => w.push(Win::Idle(k)),
+            _ => w.push(Win::Between(k)),
+        }
+    }
+    if v.mode != Mode::TickLoop || v.yielding {
+        for k in 0..=max_occ {
+            w.push(Win::MidYield(k));
+        }
+    }
+    w
+}
+
+// ---------------------------------------------------------------------------------------------
+// Shared counters, executor waker, runner slot
+
+struct Shared {
+    tick_starts: AtomicU64,
+    tick_ends: AtomicU64,
+    /// Cross-thread part only: last program point the runner passed.
+    cur: AtomicU32,
+}
+
+impl Shared {
+    fn new() -> Arc<Shared> {
+        Arc::new(Shared {
+            tick_starts: AtomicU64::new(0),
+            tick_ends: AtomicU64::new(0),
+            cur: AtomicU32::new(L_IDLE),
+        })
+    }
+}
+
+type BoxFut = Pin<Box<dyn Future<Output = ()>>>;
+
+thread_local! {
+    /// The runner future of the current case (lives on the runner thread).
+    static RUNNER: RefCell<Option<BoxFut>> = const { RefCell::new(None) };
+}
+
+/// The executor's waker: a flag (+ unpark for the cross-thread part).
+struct ExecWake {
+    woken: AtomicBool,
+    thread: std::thread::Thread,
+    /// Deterministic part only: react to a wake by polling the runner right inside `wake`.
+    inline: AtomicBool,
+    polls: AtomicU64,
+    times_woken: AtomicU64,
+    finished: AtomicBool,
+}
+
+impl ExecWake {
+    fn new(inline: bool) -> Arc<ExecWake> {
+        Arc::new(ExecWake {
+            woken: AtomicBool::new(false),
+            thread: std::thread::current(),
+            inline: AtomicBool::new(inline),
+            polls: AtomicU64::new(0),
+            times_woken: AtomicU64::new(0),
+            finished: AtomicBool::new(false),
+        })
+    }
+}
+
+const INLINE_POLL_CAP: u64 = 4096;
+
+impl Wake for ExecWake {
+    fn wake(self: Arc<Self>) {
+        self.wake_by_ref();
+    }
+    fn wake_by_ref(self: &Arc<Self>) {
+        self.woken.store(true, SeqCst);
+        self.times_woken.fetch_add(1, Relaxed);
+        if self.inline.load(Relaxed) {
+            // Executor that reacts immediately: run the runner until it is at rest again, unless it is
+            // being polled right now (wake fired from inside a poll), in which case the flag stays set.
+            loop {
+                if self.polls.load(Relaxed) > INLINE_POLL_CAP {
+                    break;
+                }
+                self.woken.store(false, SeqCst);
+                match poll_runner(self) {
+                    None => {
+                        self.woken.store(true, SeqCst);
+                        break;
+                    }
+                    Some(Poll::Ready(())) => {
+                        self.finished.store(true, SeqCst);
+                        break;
+                    }
+                    Some(Poll::Pending) => {
+                        if !self.woken.load(SeqCst) {
+                            break;
+                        }
+                    }
+                }
+            }
+        }
+        self.thread.unpark();
+    }
+}
+
+/// Poll the runner future once; `None` if there is none or it is being polled already.
+fn poll_runner(ew: &Arc<ExecWake>) -> Option<Poll<()>> {
+    RUNNER.with(|r| {
+        let mut g = r.try_borrow_mut().ok()?;
+        let fut = g.as_mut()?;
+        ew.polls.fetch_add(1, Relaxed);
+        let waker = Waker::from(ew.clone());
+        let mut cx = TaskCx::from_waker(&waker);
+        Some(fut.as_mut().poll(&mut cx))
+    })
+}
+
+fn clear_runner() {
+    verif::set_point_hook(None);
+    // Take the future out before dropping it so that a drop never runs under the slot's borrow.
+    let old = RUNNER.with(|r| r.try_borrow_mut().ok().and_then(|mut g| g.take()));
+    drop(old);
+}
+
+/// `Pending` once with an immediate self-wake (what a cooperative yield does).
+struct YieldOnce(bool);
+impl Future for YieldOnce {
+    type Output = ();
+    fn poll(mut self: Pin<&mut Self>, cx: &mut TaskCx<'_>) -> Poll<()> {
+        if self.0 {
+            Poll::Ready(())
+        } else {
+            self.0 = true;
+            cx.waker().wake_by_ref();
+            Poll::Pending
+        }
+    }
+}
+
+fn spin(n: u32) {
+    if cfg!(miri) {
+        for _ in 0..n.min(2) {
+            std::thread::yield_now();
+        }
+    } else {
+        for _ in 0..n {
+            std::hint::spin_loop();
+        }
+    }
+}
+
+// ---------------------------------------------------------------------------------------------
+// Deterministic window sweep
+
+struct WakeRec {
+    win: Win,
+    planned: bool,
+    c_before: u64,
+    judged: bool,
+    deferred: bool,
+}
+
+struct Det {
+    plan: Vec<(Win, bool)>,
+    occ: [u32; 10],
+    wakes: Vec<WakeRec>,
+    waker: Option<Waker>,
+    /// Set by the driver future when one API call returned.
+    boundary: bool,
+    stop: bool,
+    loop_cap_hit: bool,
+    trace: Vec<(&'static str, u32)>,
+}
+
+impl Det {
+    fn take_planned(&mut self, win: Win) -> usize {
+        let mut n = 0;
+        for (w, fired) in self.plan.iter_mut() {
+            if *w == win && !*fired {
+                *fired = true;
+                n += 1;
+            }
+        }
+        n
+    }
+    fn unfired(&self) -> usize {
+        self.plan.iter().filter(|(_, f)| !*f).count()
+    }
+    fn unjudged(&self) -> usize {
+        self.wakes.iter().filter(|w| !w.judged).count()
+    }
+    fn note(&mut self, what: &'static str, n: u32) {
+        if self.trace.len() < 400 {
+            self.trace.push((what, n));
+        }
+    }
+}
+
+type DetRef = Rc<RefCell<Det>>;
+
+/// Record a wake that is about to be invoked (reads the tick counter first).
+fn record_wake(det: &DetRef, sh: &Shared, win: Win, planned: bool) {
+    let c = sh.tick_starts.load(SeqCst);
+    let mut d = det.borrow_mut();
+    d.note("WAKE-at", 0);
+    d.note(win.label(), win.occ() as u32);
+    d.wakes.push(WakeRec { win, planned, c_before: c, judged: false, deferred: false });
+}
+
+/// Fire `n` wakes from outside the tick closure through a clone of `Context::waker()`.
+fn fire_outside(det: &DetRef, sh: &Shared, win: Win, planned: bool, n: usize) {
+    for i in 0..n {
+        record_wake(det, sh, win, planned);
+        let waker = det.borrow().waker.clone().expect("waker");
+        if i % 2 == 0 {
+            waker.wake_by_ref();
+        } else {
+            waker.wake();
+        }
+    }
+}
+
+fn fire_in_tick(det: &DetRef, sh: &Shared, phase: u8, idx: u64, ctx: &Context) {
+    if idx > 200 {
+        return;
+    }
+    let win = Win::Tick(phase, idx as u8);
+    let n = det.borrow_mut().take_planned(win);
+    for _ in 0..n {
+        record_wake(det, sh, win, true);
+        match phase {
+            0 => ctx.waker().wake_by_ref(),
+            1 => ctx.waker().wake(),
+            _ => ctx.schedule_subgraph(true),
+        }
+    }
+}
+
+/// Suspends the driver once *without* waking the executor and tells the harness that an API call
+/// has returned; the harness resumes the driver explicitly.
+struct Boundary {
+    det: DetRef,
+    armed: bool,
+}
+impl Future for Boundary {
+    type Output = ();
+    fn poll(mut self: Pin<&mut Self>, _cx: &mut TaskCx<'_>) -> Poll<()> {
+        if self.armed {
+            Poll::Ready(())
+        } else {
+            self.armed = true;
+            self.det.borrow_mut().boundary = true;
+            Poll::Pending
+        }
+    }
+}
+
+/// Build the real `Dfir` around the harness tick closure and wrap the chosen driver into a future.
+fn make_det_runner(v: Variant, det: &DetRef, sh: &Arc<Shared>) -> BoxFut {
+    let wake_state = Arc::new(WakeState::default());
+    let ctx = Context::new(wake_state, Rc::new(DfirMetrics::default()));
+    det.borrow_mut().waker = Some(ctx.waker());
+
+    let (d, s) = (det.clone(), sh.clone());
+    let tick = async move |ctx: &mut Context| -> bool {
+        let idx = s.tick_starts.fetch_add(1, SeqCst);
+        d.borrow_mut().note("tick-start", idx as u32);
+        fire_in_tick(&d, &s, 0, idx, ctx);
+        if v.yielding {
+            YieldOnce(false).await;
+            fire_in_tick(&d, &s, 1, idx, ctx);
+        }
+        fire_in_tick(&d, &s, 2, idx, ctx);
+        s.tick_ends.fetch_add(1, SeqCst);
+        ctx.__end_tick();
+        idx < v.work_ticks as u64
+    };
+    let mut df = Dfir::new(tick, ctx, None, None);
+    let d = det.clone();
+    match v.mode {
+        Mode::Run => Box::pin(async move {
+            match df.run().await {}
+        }),
+        Mode::RaSeq => Box::pin(async move {
+            loop {
+                df.run_available().await;
+                Boundary { det: d.clone(), armed: false }.await;
+                if d.borrow().stop {
+                    break;
+                }
+            }
+        }),
+        Mode::TickLoop => Box::pin(async move {
+            loop {
+                let mut n = 0u32;
+                while df.run_tick().await {
+                    n += 1;
+                    if n > 64 {
+                        d.borrow_mut().loop_cap_hit = true;
+                        break;
+                    }
+                }
+                Boundary { det: d.clone(), armed: false }.await;
+                if d.borrow().stop {
+                    break;
+                }
+            }
+        }),
+    }
+}
+
+#[derive(Default)]
+struct CaseOutcome {
+    /// (signature, what) of violations found.
+    violations: Vec<(String, String)>,
+    /// windows in which wakes were actually fired (planned ones)
+    fired: Vec<Win>,
+    all_planned_fired: bool,
+    judged: u64,
+    deferred: u64,
+    driver_wakes: u64,
+    ticks: u64,
+    polls: u64,
+    harness_problem: Option<String>,
+}
+
+const MAX_RESTS: u32 = 7; // quiescent moments in which the harness may still fire a wake (run mode)
+const MAX_CALLS: u32 = 6; // API calls per case (run_available / run_tick-loop drivers)
+const POLL_CAP: u64 = 600; // a correct run needs < 100 polls for <= 3 planned + 7 driver wakes
+
+fn trace_string(d: &Det) -> String {
+    let mut s = String::new();
+    for (w, n) in d.trace.iter() {
+        if !s.is_empty() {
+            s.push(' ');
+        }
+        s.push_str(w);
+        s.push('#');
+        s.push_str(&n.to_string());
+    }
+    s
+}
+
+/// Judge every wake not judged yet. `at_rest` describes the moment for the message.
+fn judge(v: &Variant, det: &DetRef, sh: &Shared, out: &mut CaseOutcome, moment: &str) {
+    let now = sh.tick_starts.load(SeqCst);
+    let mut d = det.borrow_mut();
+    let trace = trace_string(&d);
+    for w in d.wakes.iter_mut() {
+        if w.judged {
+            continue;
+        }
+        if now > w.c_before {
+            w.judged = true;
+            out.judged += 1;
+            continue;
+        }
+        // run_available() alone: a wake after its last flag check may be left to the next call.
+        if v.mode == Mode::RaSeq && w.win.label() == POINTS[P_RA_AFTER_SWAP as usize] && !w.deferred {
+            w.deferred = true;
+            out.deferred += 1;
+            continue;
+        }
+        w.judged = true;
+        out.judged += 1;
+        let class = if w.win.label() == "idle" && v.inline { "idle(inline-exec)" } else { w.win.label() };
+        let sig = format!("C27|{}|no tick after wake|{}", v.mode.site(), class);
+        let what = format!(
+            "wake fired at {}#{} when {} tick(s) had started; {} with still {} tick(s) started: the wake-up was missed. variant={} trace: {}",
+            w.win.label(), w.win.occ(), w.c_before, moment, now, v.name(), trace
+        );
+        out.violations.push((sig, what));
+    }
+}
+
+fn run_det_case(v: Variant, plan: &[Win]) -> CaseOutcome {
+    let mut out = CaseOutcome::default();
+    let sh = Shared::new();
+    let det: DetRef = Rc::new(RefCell::new(Det {
+        plan: plan.iter().map(|w| (*w, false)).collect(),
+        occ: [0; 10],
+        wakes: vec![],
+        waker: None,
+        boundary: false,
+        stop: false,
+        loop_cap_hit: false,
+        trace: vec![],
+    }));
+    let ew = ExecWake::new(false);
+    clear_runner();
+
+    let res = catch(|| {
+        let fut = make_det_runner(v, &det, &sh);
+        RUNNER.with(|r| *r.borrow_mut() = Some(fut));
+        {
+            let (d, s) = (det.clone(), sh.clone());
+            verif::set_point_hook(Some(Box::new(move |name: &'static str| {
+                let Some(p) = point_index(name) else { return };
+                let (k, n) = {
+                    let mut dd = d.borrow_mut();
+                    let k = dd.occ[p as usize];
+                    dd.occ[p as usize] += 1;
+                    dd.note(name, k);
+                    let n = if k <= 200 { dd.take_planned(Win::Point(p, k as u8)) } else { 0 };
+                    (k, n)
+                };
+                if n > 0 {
+                    fire_outside(&d, &s, Win::Point(p, k as u8), true, n);
+                }
+            })));
+        }
+        // The inline-reacting executor only makes a difference for wakes fired while the runner is
+        // not being polled; it is switched on after construction so that `ExecWake::new` is uniform.
+        ew.inline.store(v.inline, Relaxed);
+
+        let (mut rests, mut calls, mut midyields) = (0u32, 0u32, 0u32);
+        'outer: loop {
+            if ew.polls.load(Relaxed) > POLL_CAP {
+                out.harness_problem = Some(format!("poll cap reached ({})", v.name()));
+                break;
+            }
+            ew.woken.store(false, SeqCst);
+            match poll_runner(&ew) {
+                None => {
+                    out.harness_problem = Some("runner slot busy/empty".into());
+                    break;
+                }
+                Some(Poll::Ready(())) => break,
+                Some(Poll::Pending) => {}
+            }
+            // After a poll that returned Pending.
+            loop {
+                if ew.finished.load(SeqCst) {
+                    break 'outer;
+                }
+                let boundary = std::mem::take(&mut det.borrow_mut().boundary);
+                if boundary {
+                    // One API call has returned.
+                    det.borrow_mut().note("call-returned", calls);
+                    let moment = match v.mode {
+                        Mode::RaSeq => "run_available() returned",
+                        _ => "run_tick() returned false (driver stopped)",
+                    };
+                    judge(&v, &det, &sh, &mut out, moment);
+                    let k = calls;
+                    calls += 1;
+                    let n = if k <= 200 { det.borrow_mut().take_planned(Win::Between(k as u8)) } else { 0 };
+                    if n > 0 {
+                        fire_outside(&det, &sh, Win::Between(k as u8), true, n);
+                    }
+                    let (unfired, unjudged) = {
+                        let d = det.borrow();
+                        (d.unfired(), d.unjudged())
+                    };
+                    let more = (unfired > 0 && calls < MAX_CALLS) || (unjudged > 0 && calls < MAX_CALLS + 2);
+                    if !more {
+                        det.borrow_mut().stop = true;
+                    }
+                    continue 'outer;
+                }
+                if ew.woken.load(SeqCst) {
+                    // Suspended mid-way with the executor already woken.
+                    let k = midyields;
+                    midyields += 1;
+                    let n = if k <= 200 { det.borrow_mut().take_planned(Win::MidYield(k as u8)) } else { 0 };
+                    if n > 0 {
+                        fire_outside(&det, &sh, Win::MidYield(k as u8), true, n);
+                    }
+                    continue 'outer;
+                }
+                // At rest: Pending and nobody has woken the executor.
+                if v.mode != Mode::Run {
+                    out.harness_problem =
+                        Some(format!("driver {} suspended without a pending wake-up", v.name()));
+                    break 'outer;
+                }
+                det.borrow_mut().note("at-rest", rests);
+                judge(&v, &det, &sh, &mut out, "runner at rest (future Pending, executor not woken)");
+                let k = rests;
+                rests += 1;
+                let n = det.borrow_mut().take_planned(Win::Idle(k.min(255) as u8));
+                if n > 0 {
+                    fire_outside(&det, &sh, Win::Idle(k as u8), true, n);
+                } else if det.borrow().unfired() > 0 && rests < MAX_RESTS {
+                    // Driver wake: keeps the runner going so that later occurrences are reached. It is an
+                    // ordinary idle wake and is judged like every other one.
+                    out.driver_wakes += 1;
+                    fire_outside(&det, &sh, Win::Idle(k as u8), false, 1);
+                } else {
+                    break 'outer;
+                }
+                if ew.woken.load(SeqCst) {
+                    continue 'outer;
+                }
+                // Not woken by the wake(s) just fired (or already handled inline): still at rest.
+            }
+        }
+        if det.borrow().loop_cap_hit {
+            out.harness_problem = Some("run_tick() returned true 64 times in a row".into());
+        }
+    });
+    ew.inline.store(false, Relaxed);
+    clear_runner();
+
+    if let Err(msg) = res {
+        let sig = format!("C27|{}|panic", v.mode.site());
+        out.violations.push((sig, format!("runner panicked: {msg} (variant {})", v.name())));
+    }
+    {
+        let d = det.borrow();
+        out.fired = d.wakes.iter().filter(|w| w.planned).map(|w| w.win).collect();
+        out.all_planned_fired = d.unfired() == 0;
+        if out.harness_problem.is_none() && out.violations.is_empty() && d.unjudged() > 0 {
+            out.harness_problem = Some(format!("{} wake(s) left unjudged ({})", d.unjudged(), v.name()));
+        }
+    }
+    det.borrow_mut().waker = None;
+    out.ticks = sh.tick_starts.load(SeqCst);
+    out.polls = ew.polls.load(Relaxed);
+    out
+}
+
+fn det_case_json(v: &Variant, plan: &[Win]) -> Value {
+    json!({"engine": "mon_wake", "family": "det", "variant": v.to_json(),
+           "plan": plan.iter().map(|w| w.to_json()).collect::<Vec<_>>()})
+}
+
+struct DetStats {
+    /// (variant name, window label, occ, n_wakes) -> wakes fired
+    hits: BTreeMap<(String, &'static str, u8, usize), u64>,
+    ticks: u64,
+    polls: u64,
+    cases: u64,
+    cases_all_fired: u64,
+}
+
+fn do_det_case(rep: &mut Reporter, st: &mut DetStats, v: Variant, plan: &[Win]) {
+    let out = run_det_case(v, plan);
+    st.cases += 1;
+    st.ticks += out.ticks;
+    st.polls += out.polls;
+    rep.evals(out.judged);
+    rep.count_n("det:wakes_judged", out.judged);
+    rep.count_n("det:driver_idle_wakes", out.driver_wakes);
+    rep.count_n("det:ra_late_wake_left_to_next_call", out.deferred);
+    for w in out.fired.iter() {
+        *st.hits.entry((v.name(), w.label(), w.occ(), plan.len())).or_insert(0) += 1;
+    }
+    if let Some(p) = out.harness_problem.as_ref() {
+        rep.count("det:harness_problem");
+        rep.require(false, p);
+    }
+    if out.all_planned_fired {
+        st.cases_all_fired += 1;
+        rep.nontrivial(hash_of(&(v, plan)));
+        rep.sample(|| {
+            json!({"variant": v.name(), "plan": plan.iter().map(|w| w.to_json()).collect::<Vec<_>>(),
+                   "ticks": out.ticks, "polls": out.polls, "wakes_judged": out.judged})
+        });
+    } else {
+        rep.count("det:case_with_unreached_window");
+    }
+    for (sig, what) in out.violations.iter() {
+        rep.violation(sig, what, det_case_json(&v, plan));
+    }
+}
+
+fn det_sweep(args: &Args, rep: &mut Reporter) -> DetStats {
+    let mut st = DetStats { hits: BTreeMap::new(), ticks: 0, polls: 0, cases: 0, cases_all_fired: 0 };
+    let mut rng = args.rng().fork(0xD37);
+    let miri = args.tier == Tier::Miri;
+    let mut case_index = 0usize;
+    for v in all_variants() {
+        let ws = windows_of(&v, 3);
+        // singles
+        for w in ws.iter() {
+            case_index += 1;
+            if miri && !args.in_shard(case_index) {
+                continue;
+            }
+            do_det_case(rep, &mut st, v, &[*w]);
+        }
+        // pairs (unordered, including twice the same window)
+        if !miri {
+            for i in 0..ws.len() {
+                for j in i..ws.len() {
+                    do_det_case(rep, &mut st, v, &[ws[i], ws[j]]);
+                }
+            }
+        } else {
+            for _ in 0..6 {
+                let (a, b) = (*rng.choose(&ws), *rng.choose(&ws));
+                case_index += 1;
+                if args.in_shard(case_index) {
+                    do_det_case(rep, &mut st, v, &[a, b]);
+                }
+            }
+        }
+    }
+    // random triples with later occurrences (sampled)
+    let triples = args.budget(6_000, 300_000, 0);
+    let variants = all_variants();
+    for _ in 0..triples {
+        let v = *rng.choose(&variants);
+        let ws = windows_of(&v, 5);
+        let plan = [*rng.choose(&ws), *rng.choose(&ws), *rng.choose(&ws)];
+        do_det_case(rep, &mut st, v, &plan);
+    }
+    st
+}
+
+// ---------------------------------------------------------------------------------------------
+// Cross-thread stress
+
+struct StressStats {
+    wakes: u64,
+    rounds: u64,
+    epochs: u64,
+    ticks: u64,
+    polls: u64,
+    at: [u64; 14],
+    woken_by_runner_side: u64,
+}
+
+fn at_name(i: usize) -> &'static str {
+    if i < 10 { POINTS[i] } else { L_NAMES[i - 10] }
+}
+
+/// One epoch = a fresh `Dfir` on this thread + a few rounds; in every round 1–2 threads fire wakes
+/// at random moments and the runner is then driven to rest. Returns violations (sig, what).
+fn stress_epoch(epoch_seed: u64, tiny: bool, st: &mut StressStats, rep: &mut Reporter) -> Vec<(String, String)> {
+    let mut violations = vec![];
+    let mut rng = Rng::new(epoch_seed);
+    let sh = Shared::new();
+    let ew = ExecWake::new(false);
+    clear_runner();
+
+    let wake_state = Arc::new(WakeState::default());
+    let ctx = Context::new(wake_state, Rc::new(DfirMetrics::default()));
+    let waker = ctx.waker();
+    let s = sh.clone();
+    let mut trng = rng.fork(1);
+    let tick = async move |ctx: &mut Context| -> bool {
+        s.tick_starts.fetch_add(1, SeqCst);
+        s.cur.store(L_TICK, Relaxed);
+        let r = trng.next_u64();
+        if r % 4 == 0 {
+            YieldOnce(false).await;
+        }
+        if r % 8 < 3 {
+            spin(((r >> 8) % 48) as u32);
+        }
+        s.tick_ends.fetch_add(1, SeqCst);
+        ctx.__end_tick();
+        false
+    };
+    let mut df = Dfir::new(tick, ctx, None, None);
+    let fut: BoxFut = Box::pin(async move {
+        match df.run().await {}
+    });
+    RUNNER.with(|r| *r.borrow_mut() = Some(fut));
+    {
+        let s = sh.clone();
+        let mut hrng = rng.fork(2);
+        verif::set_point_hook(Some(Box::new(move |name: &'static str| {
+            if let Some(p) = point_index(name) {
+                s.cur.store(p as u32, Relaxed);
+            }
+            // widen the (nanosecond) windows a little, at random
+            let r = hrng.next_u64();
+            if r % 4 == 0 {
+                spin(((r >> 8) % 40) as u32);
+            }
+        })));
+    }
+
+    let rounds = if tiny { 2 } else { 1 + rng.below(8) };
+    let mut polled_once = false;
+    for round in 0..rounds {
+        let nthreads = 1 + rng.below(2);
+        let wmax = if tiny {
+            2
+        } else if rng.chance(1, 8) {
+            32
+        } else {
+            4
+        };
+        let per_thread: Vec<(u64, usize, u32)> = (0..nthreads)
+            .map(|t| {
+                let cls = [0u32, 24, 400, 6000][rng.below(4)];
+                (rng.fork(100 + t as u64).next_u64(), 1 + rng.below(wmax), cls)
+            })
+            .collect();
+        let use_park = cfg!(miri) || rng.chance(1, 3);
+        // A fresh Dfir is raced from its very first poll in the first round; afterwards the runner is
+        // idle (waker registered) when the round starts.
+        let total_wakes: usize = per_thread.iter().map(|p| p.1).sum();
+        let poll_cap = ew.polls.load(Relaxed) + 64 + 40 * total_wakes as u64;
+        let go = AtomicBool::new(false);
+        let done = AtomicUsize::new(0);
+        let main_thread = std::thread::current();
+        let mut capped = false;
+
+        let recs: Vec<Vec<(u32, u64)>> = std::thread::scope(|scope| {
+            let handles: Vec<_> = per_thread
+                .iter()
+                .map(|&(seed, w, cls)| {
+                    let (sh, waker, go, done, main_thread) = (&sh, &waker, &go, &done, &main_thread);
+                    scope.spawn(move || {
+                        let mut r = Rng::new(seed);
+                        let mut recs = Vec::with_capacity(w);
+                        while !go.load(Acquire) {
+                            spin(1);
+                        }
+                        for i in 0..w {
+                            if cls > 0 {
+                                spin(r.below(cls as usize) as u32);
+                            }
+                            let at = sh.cur.load(Relaxed);
+                            let c = sh.tick_starts.load(SeqCst);
+                            if i % 2 == 0 {
+                                waker.wake_by_ref();
+                            } else {
+                                waker.clone().wake();
+                            }
+                            recs.push((at, c));
+                        }
+                        done.fetch_add(1, SeqCst);
+                        main_thread.unpark();
+                        recs
+                    })
+                })
+                .collect();
+            go.store(true, Release);
+
+            // Runner thread: hand-written executor. Polls only when its waker was invoked (and once at
+            // the very beginning); finishes when every waker thread is done and it is at rest.
+            loop {
+                let must_poll = !polled_once || ew.woken.swap(false, SeqCst);
+                if must_poll {
+                    polled_once = true;
+                    if ew.polls.load(Relaxed) > poll_cap {
+                        eprintln!("DEBUG cap: polls {} cap {} total_wakes {}", ew.polls.load(Relaxed), poll_cap, total_wakes);
+                        capped = true;
+                        break;
+                    }
+                    sh.cur.store(L_POLL_ENTRY, Relaxed);
+                    match poll_runner(&ew) {
+                        Some(Poll::Pending) => {}
+                        other => {
+                            eprintln!("DEBUG unexpected poll result {:?}", other);
+                            capped = true;
+                            break;
+                        }
+                    }
+                    sh.cur.store(L_BETWEEN, Relaxed);
+                    continue;
+                }
+                sh.cur.store(L_IDLE, Relaxed);
+                if done.load(SeqCst) == nthreads {
+                    // Every wake (and its executor notification, if any) has completed.
+                    if ew.woken.load(SeqCst) {
+                        continue;
+                    }
+                    break;
+                }
+                if use_park {
+                    std::thread::park();
+                } else {
+                    spin(1);
+                }
+            }
+            if capped {
+                // let the wakers finish before leaving the scope
+                while done.load(SeqCst) != nthreads {
+                    std::thread::yield_now();
+                }
+            }
+            handles.into_iter().map(|h| h.join().expect("waker thread")).collect()
+        });
+
+        st.rounds += 1;
+        if capped {
+            rep.count("stress:poll_cap_or_unexpected_ready");
+            rep.require(false, "stress: poll cap reached / run() returned");
+            break;
+        }
+        let now = sh.tick_starts.load(SeqCst);
+        let mut seen: BTreeSet<u32> = BTreeSet::new();
+        for (t, r) in recs.iter().enumerate() {
+            st.wakes += r.len() as u64;
+            for (at, _) in r.iter() {
+                st.at[*at as usize] += 1;
+                seen.insert(*at);
+            }
+            let (at, c) = *r.last().expect("w >= 1");
+            rep.eval();
+            if now <= c {
+                violations.push((
+                    "C27|Dfir::run|no tick after wake|cross-thread".to_string(),
+                    format!(
+                        "thread {t} fired its last wake of the round when {c} tick(s) had started (runner last seen at {}); all waker threads finished and the runner is at rest with still {now} tick(s) started (round {round}, {} thread(s), executor {})",
+                        at_name(at as usize), nthreads, if use_park { "parks" } else { "spins" }
+                    ),
+                ));
+            }
+        }
+        if seen.iter().any(|a| *a != L_IDLE) {
+            rep.nontrivial(hash_of(&("stress", nthreads, &seen)));
+        }
+        if st.rounds % 997 == 1 {
+            rep.sample(|| {
+                json!({"family": "stress", "threads": nthreads, "wakes": total_wakes, "ticks_so_far": now,
+                       "runner_seen_at": seen.iter().map(|a| at_name(*a as usize)).collect::<Vec<_>>() })
+            });
+        }
+    }
+    st.epochs += 1;
+    st.ticks += sh.tick_starts.load(SeqCst);
+    st.polls += ew.polls.load(Relaxed);
+    st.woken_by_runner_side += ew.times_woken.load(Relaxed);
+    clear_runner();
+    drop(waker);
+    violations
+}
+
+fn stress(args: &Args, rep: &mut Reporter) -> StressStats {
+    let mut st = StressStats { wakes: 0, rounds: 0, epochs: 0, ticks: 0, polls: 0, at: [0; 14], woken_by_runner_side: 0 };
+    let budget = args.budget(20_000, 2_000_000, 10) as u64;
+    let tiny = args.tier == Tier::Miri;
+    let mut rng = args.rng().fork(0x57E55 + args.shard.0 as u64);
+    let mut reported = 0;
+    while st.wakes < budget {
+        let epoch_seed = rng.next_u64();
+        let res = catch(|| stress_epoch(epoch_seed, tiny, &mut st, rep));
+        let case = json!({"engine": "mon_wake", "family": "stress", "epoch_seed": epoch_seed.to_string(), "tiny": tiny});
+        match res {
+            Ok(vs) => {
+                for (sig, what) in vs {
+                    reported += 1;
+                    rep.violation(&sig, &what, case.clone());
+                }
+            }
+            Err(msg) => {
+                clear_runner();
+                reported += 1;
+                rep.violation("C27|Dfir::run|panic|cross-thread", &format!("panic: {msg}"), case);
+            }
+        }
+        if reported > 50 || rep.counter("stress:poll_cap_or_unexpected_ready") > 0 {
+            break;
+        }
+    }
+    st
+}
+
+// ---------------------------------------------------------------------------------------------
+
+fn replay(rep: &mut Reporter, case: &Value) {
+    match case.get("family").and_then(|f| f.as_str()) {
+        Some("det") => {
+            let vj = &case["variant"];
+            let v = Variant {
+                mode: Mode::from_name(vj["mode"].as_str().unwrap_or("run")).expect("mode"),
+                yielding: vj["yielding"].as_bool().unwrap_or(false),
+                inline: vj["inline_exec"].as_bool().unwrap_or(false),
+                work_ticks: vj["work_ticks"].as_u64().unwrap_or(0) as u8,
+            };
+            let plan: Vec<Win> = case["plan"]
+                .as_array()
+                .expect("plan")
+                .iter()
+                .map(|w| Win::from_json(w).expect("window"))
+                .collect();
+            let mut st = DetStats { hits: BTreeMap::new(), ticks: 0, polls: 0, cases: 0, cases_all_fired: 0 };
+            do_det_case(rep, &mut st, v, &plan);
+        }
+        Some("stress") => {
+            // thread schedules are not reproducible: repeat the epoch
+            let seed: u64 = case["epoch_seed"].as_str().and_then(|s| s.parse().ok()).expect("epoch_seed");
+            let tiny = case["tiny"].as_bool().unwrap_or(false);
+            let mut st = StressStats { wakes: 0, rounds: 0, epochs: 0, ticks: 0, polls: 0, at: [0; 14], woken_by_runner_side: 0 };
+            let reps = if cfg!(miri) { 1 } else { 20_000 };
+            for _ in 0..reps {
+                let vs = stress_epoch(seed, tiny, &mut st, rep);
+                if !vs.is_empty() {
+                    for (sig, what) in vs {
+                        rep.violation(&sig, &what, case.clone());
+                    }
+                    break;
+                }
+            }
+        }
+        _ => {
+            eprintln!("mon_wake: cannot replay this descriptor (mode {:?})", case.get("mode"));
+            std::process::exit(3);
+        }
+    }
+}
+
 fn main() {
-    let args = vcommon::Args::parse();
+    let args = Args::parse();
     if args.prop == "NONE" {
         return;
     }
-    eprintln!("not implemented yet");
-    std::process::exit(3);
+    if args.prop != "C27" {
+        eprintln!("mon_wake serves C27 only");
+        std::process::exit(3);
+    }
+    let mut rep = Reporter::new("C27", args.seed);
+    if let Some(case) = args.replay_case() {
+        replay(&mut rep, &case);
+        rep.finish("replay", false);
+        return;
+    }
+    let miri = args.tier == Tier::Miri;
+
+    let det = det_sweep(&args, &mut rep);
+    let stress = stress(&args, &mut rep);
+
+    // evidence
+    let mut windows_hit: BTreeSet<(&'static str, u8, usize)> = BTreeSet::new();
+    let mut per_window: BTreeMap<String, u64> = BTreeMap::new();
+    for ((_, label, occ, n), cnt) in det.hits.iter() {
+        windows_hit.insert((label, *occ, *n));
+        *per_window.entry(format!("{label}#{occ}|n={n}")).or_insert(0) += cnt;
+    }
+    let per_variant_windows: BTreeMap<String, usize> = {
+        let mut m: BTreeMap<String, BTreeSet<(&'static str, u8, usize)>> = BTreeMap::new();
+        for ((v, label, occ, n), _) in det.hits.iter() {
+            m.entry(v.clone()).or_default().insert((label, *occ, *n));
+        }
+        m.into_iter().map(|(k, s)| (k, s.len())).collect()
+    };
+    rep.extra("det_cases", json!(det.cases));
+    rep.extra("det_cases_all_windows_reached", json!(det.cases_all_fired));
+    rep.extra("det_ticks_observed", json!(det.ticks));
+    rep.extra("det_polls", json!(det.polls));
+    rep.extra("det_distinct_windows_hit(point,occurrence,n_wakes)", json!(windows_hit.len()));
+    rep.extra("det_distinct_windows_hit_per_variant", json!(per_variant_windows));
+    rep.extra("det_wakes_fired_per_window", json!(per_window));
+    let stress_at: BTreeMap<&'static str, u64> =
+        (0..14).filter(|i| stress.at[*i] > 0).map(|i| (at_name(i), stress.at[i])).collect();
+    rep.extra(
+        "stress",
+        json!({"wakes": stress.wakes, "rounds": stress.rounds, "fresh_dataflows": stress.epochs,
+               "ticks_observed": stress.ticks, "polls": stress.polls,
+               "executor_notifications": stress.woken_by_runner_side,
+               "runner_last_seen_at_when_wake_fired": stress_at}),
+    );
+
+    // minimum observation
+    if !miri {
+        // every named program point, occurrences 0..=3, hit with single and double wakes under run()
+        for (pi, p) in POINTS.iter().enumerate() {
+            for occ in 0..=3u8 {
+                for n in [1usize, 2] {
+                    let ok = det.hits.iter().any(|((v, l, o, nn), c)| {
+                        v.starts_with("run") && !v.starts_with("run_") && l == p && *o == occ && *nn == n && *c > 0
+                    });
+                    rep.require(ok, &format!("window {p}#{occ} (n={n}) never hit under run() [{pi}]"));
+                }
+            }
+        }
+        for label in ["tick:start", "tick:resumed", "tick:end", "idle", "between-calls", "mid-yield"] {
+            let ok = det.hits.iter().any(|((_, l, _, _), c)| *l == label && *c > 0);
+            rep.require(ok, &format!("window class {label} never hit"));
+        }
+        rep.require(det.cases_all_fired >= 10_000, "fewer than 10000 deterministic cases reached all their windows");
+        rep.require(stress.wakes >= args.budget(20_000, 2_000_000, 0) as u64, "stress: wake budget not reached");
+        let non_idle: u64 = (0..14).filter(|i| *i != L_IDLE as usize).map(|i| stress.at[i]).sum();
+        rep.require(non_idle >= 1_000, "stress: fewer than 1000 wakes landed while the runner was not idle");
+        let distinct_at = (0..14).filter(|i| stress.at[*i] > 0).count();
+        rep.require(distinct_at >= 8, "stress: wakes landed in fewer than 8 distinct runner positions");
+    } else {
+        rep.require(det.cases >= 1, "miri: no deterministic case run");
+        rep.require(stress.wakes >= 1, "miri: no cross-thread wake");
+    }
+
+    rep.finish(
+        "Real Dfir (Dfir::new around a tick-counting harness closure) polled by a hand-written executor. \
+         Deterministic part: for each of 16 runner variants (run() / repeated run_available() / `while run_tick()` \
+         driver x tick that returns at once or suspends once x executor that reacts after or inside Waker::wake x \
+         tick reporting work or not) every single window and every unordered pair of windows is enumerated, a window \
+         being (program point of the runner [10 hook points] | inside tick start/resumed/end | runner at rest | \
+         between calls | suspended mid-way) x occurrence 0..=3; plus random triples with occurrences <= 5. \
+         Cross-thread part: 1-2 threads fire Context::waker() 1-32 times each at random delays against run() on a \
+         spinning or parking executor, fresh dataflow every 1-8 rounds. Every wake records tick_starts just before \
+         it is invoked; judged when the runner is at rest (future Pending, executor flag clear, wakers joined): \
+         tick_starts must have grown. A deterministic case is non-trivial (counted by distinct (variant, plan)) \
+         if all its planned windows were actually reached and a wake fired there; a stress round is non-trivial \
+         (counted by distinct (threads, set of runner positions seen by the wakes)) if a wake landed while the \
+         runner was not idle.",
+        !miri,
+    );
 }
